@@ -460,7 +460,12 @@ def run(ctx):
                             "lists of 2-3, both Deleted states; schedules: a generated history of 6-22 commands, then one "
                             "command from each of 2-3 sessions (STORE/FETCH/EXPUNGE/UID EXPUNGE/APPEND/COPY/MOVE/NOOP/SEARCH/"
                             "CHECK, UID and non-UID) issued together under a seeded perturbation of all I/O completions; "
-                            "non-trivial = the batch mixes command kinds or contains an EXPUNGE")
+                            "non-trivial = the batch mixes command kinds or contains an EXPUNGE. First: the corpus of histories that once "
+                            "exposed a defect (corpus/c10.json), each under several schedules. After every batch each selected session "
+                            "issues CHECK (no starvation). Per batch the linearizability oracle (in Coq) must find an order of the "
+                            "commands' documented steps giving the same tagged results, the same data for the addressed messages and "
+                            "the same final mailboxes; the two-step model is compared with the atomic one on every prefix world. "
+                            "Then DELETE/RENAME races (16 of 64 combinations, all in thorough) and MOVE races against FETCH/STORE/SEARCH")
     ok = ctx.prove("Properties/C10.v")
     ctx.coq.build(["Model/Linear.vo", "Model/PhasesCmp.vo"])
     ctx.coq.unlock()
@@ -469,8 +474,11 @@ def run(ctx):
     namespace_races(ctx)
     move_races(ctx)
     ctx.assume += ["PARTIAL: fairness of asyncio and termination of each command body are assumptions; threads are modelled as "
-                   "completion events; COPY/MOVE are compared as atomic commands in the linearizability oracle",
-                   "the footprints of Model/Sched.v are declared, not derived from the command bodies"]
+                   "completion events; the schedule space is sampled (seeded jitter on every I/O completion), not enumerated",
+                   "the footprints of Model/Sched.v are declared, not derived from the command bodies (EXPUNGE/CLOSE with nothing "
+                   "\\Deleted now have the honest one: they depend on nobody marking a message until they have looked)",
+                   "Model/Phases.v splits FETCH/STORE/SEARCH only; the other commands take part in interleavings as whole steps "
+                   "(they run alone, or - COPY - read under the admission relation)"]
 
 
 def replay(ctx, path):
